@@ -254,8 +254,55 @@ def run(ctx):
                             except Exception as e:
                                 out.append(type(e).__name__)
                         return " ".join(out)
-                    extra = [("transport-fetch", ep_transport_fetch), ("str-reply", ep_str_reply)] if rep == 0 and \
+                    def ep_mutable_content(wsdl_doc=wsdl_doc):
+                        # a document plugin hands the downloaded content on as a bytearray / memoryview: it is still
+                        # the content that is parsed, nothing is fetched again from the document's location
+                        import io
+                        import suds.plugin
+                        out = []
+                        for conv in (bytearray, lambda b: memoryview(bytes(b))):
+                            class P(suds.plugin.DocumentPlugin):
+                                def loaded(self, context, conv=conv):
+                                    context.document = conv(context.document)
+
+                            class T(suds.transport.Transport):
+                                def open(self, request):
+                                    return io.BytesIO(wsdl_doc.encode())
+
+                                def send(self, request):
+                                    raise AssertionError("no send")
+                            try:
+                                cl = suds.client.Client("http://127.0.0.1:9/%s.wsdl" % MARK, transport=T(), cache=None,
+                                                        documentStore=None, plugins=[P()])
+                                out.append(str(cl))
+                            except Exception as e:
+                                out.append(type(e).__name__)
+                        return " ".join(out)
+
+                    def ep_store_served(schema=schema):
+                        # documents the configured store holds are never asked of the network, whatever their scheme
+                        enc = "http://schemas.xmlsoap.org/soap/encoding/"
+                        main = wsdlkit.wsdl_doc('<xsd:import namespace="%s" schemaLocation="%s"/>' % (enc, enc) + schema,
+                                                "f", "fResponse")
+                        store = suds.store.DocumentStore()
+                        store.update({"main.wsdl": main, "held.invalid/inc.xsd": inc})
+                        cl = suds.client.Client("suds://main.wsdl", documentStore=store, cache=None)
+                        main2 = wsdlkit.wsdl_doc('<xsd:import namespace="urn:inc" schemaLocation="http://held.invalid/inc.xsd"/>'
+                                                 + schema, "f", "fResponse")
+                        store.update({"main2.wsdl": main2})
+                        cl2 = suds.client.Client("suds://main2.wsdl", documentStore=store, cache=None)
+                        return str(cl) + str(cl2)
+
+                    def ep_huge_reply(c=c):
+                        # size does not change how a reply is parsed: no spill to disk
+                        big = ('<e:Envelope xmlns:e="%s"><e:Body><fResponse xmlns="%s"><r>%s</r></fResponse></e:Body>'
+                               '</e:Envelope>' % (xmlread.ENV11, wsdlkit.TNS, "x" * (5 * 1024 * 1024))).encode()
+                        return str(len(str(c.service.f("x", __inject={"reply": big}))))
+                    extra = [("transport-fetch", ep_transport_fetch), ("str-reply", ep_str_reply),
+                             ("store-served", ep_store_served), ("huge-reply", ep_huge_reply)] if rep == 0 and \
                         name in ("none", "internal-only") else []
+                    if rep == 0:
+                        extra.append(("mutable-content", ep_mutable_content))
                     entry_points = extra + [("error-path", ep_error_path), ("import-url", ep_import_url),
                                     ("inject", ep_inject), ("transport", ep_transport), ("reqctx", ep_reqctx),
                                     ("parser", ep_parser), ("wsdl", ep_wsdl), ("import", ep_import), ("cache", ep_cache)]
